@@ -45,12 +45,44 @@ def ev_int(t, env):
         raise Unrecognised(t[1])
     if is_t(t, "cmp"):
         a, b = ev_int(t[2], env), ev_int(t[3], env)
-        return {"<": a < b, "<=": a <= b, ">": a > b, ">=": a >= b, "==": a == b, "!=": a != b}[t[1]]
+        if t[1] in ("in", "not in"):
+            return (a in b) == (t[1] == "in")
+        import operator as _op
+        return {"<": _op.lt, "<=": _op.le, ">": _op.gt, ">=": _op.ge, "==": _op.eq, "!=": _op.ne}[t[1]](a, b)
     if is_t(t, "bool"):
         vs = [ev_int(x, env) for x in t[2]]
         return all(vs) if t[1] == "and" else any(vs)
     if is_t(t, "where") or is_t(t, "phi"):
         return ev_int(t[2], env) if ev_int(t[1], env) else ev_int(t[3], env)
+    # ---- small tuples (address paths): literals, slices, projections, len / sorted(key=len) / membership
+    if is_t(t, "tuple") or is_t(t, "list"):
+        if any(is_t(x, "star") for x in t[1]):
+            raise Unrecognised("starred tuple")
+        vs = [ev_int(x, env) for x in t[1]]
+        return tuple(vs) if t[0] == "tuple" else list(vs)
+    if is_t(t, "isinst"):
+        kinds = {"tuple": tuple, "str": str, "int": int, "list": list, "bool": bool}
+        names = t[2].split("|")
+        if not all(n in kinds for n in names):
+            raise Unrecognised(f"isinstance {t[2]}")
+        return isinstance(ev_int(t[1], env), tuple(kinds[n] for n in names))
+    if is_t(t, "is"):
+        return ev_int(t[1], env) is ev_int(t[2], env)
+    if is_t(t, "proj"):
+        return ev_int(t[1], env)[t[2]]
+    if is_t(t, "slice"):
+        return ev_int(t[1], env)[t[2]:t[3]]
+    if is_t(t, "index"):
+        base = ev_int(t[1], env)
+        if is_t(t[2], "sliceobj"):
+            lo, hi, st = (ev_int(x, env) for x in t[2][1:4])
+            return base[lo:hi:st]
+        return base[ev_int(t[2], env)]
+    if is_t(t, "call") and t[1] == ("global", "sorted") and len(t[2]) == 1 and t[3] in ((), (("key", ("global", "len")),)):
+        v = ev_int(t[2][0], env)
+        return sorted(v, key=len) if t[3] else sorted(v)
+    if is_t(t, "call") and is_t(t[1], "global") and t[1][1] in ("len", "tuple", "list") and len(t[2]) == 1 and not t[3]:
+        return {"len": len, "tuple": tuple, "list": list}[t[1][1]](ev_int(t[2][0], env))
     if is_t(t, "call") and is_t(t[1], "global"):
         n = t[1][1].split(".")[-1]
         args = [ev_int(x, env) for x in t[2]]
